@@ -30,6 +30,9 @@ def run(rep, tier):
     hc = H.HandlerCtx(f)
     if hc.body is not None:
         H.r_first_sign_handler(rep, hc)
+    rep.rule("R-FIRST-LATCH", "the handler's one-shot flag for the first_step output (it switches off the branch that skips end points until x0 + first_step has been reported) is raised only on a path that records a sample in the same call")
+    if H.r_first_latch(rep, H.HandlerCtx(f)) < 1:
+        rep.inconc("R-FIRST-LATCH", "R-FIRST-LATCH:floor", "no one-shot flag found in the handler (expected first_output_done)")
     rep.explanation = ("Structural/symbolic: clamp idioms against max_step on every path variant (inductive over the loop), sign-normalised first_step used unscaled as the first trial "
                        "step, a budget test that every cycle passes, and a taint rule showing max_steps influences nothing but that test. "
                        "Not decided: |h| <= max_step as a floating-point fact after h = xend - x; bit-identity of the budgeted prefix as values.")
